@@ -170,7 +170,7 @@ func VerifIPFIXMessageTwo() {
 	verifAssume(verifAny((h2-h1)%32 == 0, (h2-h1)%32 == 1))
 	same := verifAll(verifAddrEq(a, b), did == t.tid)
 	if !same && verifKnown("C04-hash-collision") {
-		verifAssume(h1 != h2)
+		verifAssume(verifRefHash(a, t.tid) != verifRefHash(b, did))
 	}
 	msg1, err1 := NewDecoder(a, w1.b).Decode(m)
 	verifAssert(verifAll(err1 == nil, msg1 != nil), "template-only message decodes")
